@@ -1,9 +1,9 @@
 import Umya.Model.XmlEsc
 namespace Umya.XmlEsc
 
-theorem unescGo_escChar (c : Char) (rest : List Char) :
-    unescGo .out (escChar c ++ rest) = (unescGo .out rest).map (c :: ·) := by
-  unfold escChar
+theorem unescGo_escCharOld (c : Char) (rest : List Char) :
+    unescGo .out (escCharOld c ++ rest) = (unescGo .out rest).map (c :: ·) := by
+  unfold escCharOld
   split
   · rename_i h; subst h; simp [unescGo, resolve]
   · split
@@ -17,6 +17,41 @@ theorem unescGo_escChar (c : Char) (rest : List Char) :
           · rename_i h1 h2 h3 h4 h5
             simp [unescGo, h3]
 
+theorem resolve_cr : resolve "#13".toList = some ['\r'] := by decide
+theorem resolve_lf : resolve "#10".toList = some ['\n'] := by decide
+theorem resolve_tab : resolve "#9".toList = some ['\t'] := by decide
+
+theorem unescGo_cr (rest : List Char) : unescGo .out ("&#13;".toList ++ rest) = (unescGo .out rest).map ('\r' :: ·) := by
+  have := resolve_cr
+  simp [unescGo] at this ⊢
+  simp [this]
+
+theorem unescGo_lf (rest : List Char) : unescGo .out ("&#10;".toList ++ rest) = (unescGo .out rest).map ('\n' :: ·) := by
+  have := resolve_lf
+  simp [unescGo] at this ⊢
+  simp [this]
+
+theorem unescGo_tab (rest : List Char) : unescGo .out ("&#9;".toList ++ rest) = (unescGo .out rest).map ('\t' :: ·) := by
+  have := resolve_tab
+  simp [unescGo] at this ⊢
+  simp [this]
+
+theorem unescGo_escChar (c : Char) (rest : List Char) :
+    unescGo .out (escChar c ++ rest) = (unescGo .out rest).map (c :: ·) := by
+  unfold escChar
+  split
+  · rename_i h; subst h; exact unescGo_cr rest
+  · exact unescGo_escCharOld c rest
+
+theorem unescGo_attrEscChar (c : Char) (rest : List Char) :
+    unescGo .out (attrEscChar c ++ rest) = (unescGo .out rest).map (c :: ·) := by
+  unfold attrEscChar
+  split
+  · rename_i h; subst h; exact unescGo_tab rest
+  · split
+    · rename_i h; subst h; exact unescGo_lf rest
+    · exact unescGo_escChar c rest
+
 theorem unescGo_pescChar (c : Char) (rest : List Char) :
     unescGo .out (pescChar c ++ rest) = (unescGo .out rest).map (c :: ·) := by
   unfold pescChar
@@ -26,34 +61,36 @@ theorem unescGo_pescChar (c : Char) (rest : List Char) :
     · rename_i h; subst h; simp [unescGo, resolve]
     · split
       · rename_i h; subst h; simp [unescGo, resolve]
-      · rename_i h1 h2 h3
-        simp [unescGo, h3]
+      · split
+        · rename_i h; subst h; exact unescGo_cr rest
+        · rename_i h1 h2 h3 h4
+          simp [unescGo, h3]
 
 theorem unescape_escape (s : List Char) : unescape (escape s) = some s := by
   unfold unescape escape
   induction s with
   | nil => rfl
-  | cons c r ih =>
-    rw [List.flatMap_cons, unescGo_escChar, ih]; rfl
+  | cons c r ih => rw [List.flatMap_cons, unescGo_escChar, ih]; rfl
+
+theorem unescape_attrEscape (s : List Char) : unescape (attrEscape s) = some s := by
+  unfold unescape attrEscape
+  induction s with
+  | nil => rfl
+  | cons c r ih => rw [List.flatMap_cons, unescGo_attrEscChar, ih]; rfl
 
 theorem unescape_partialEscape (s : List Char) : unescape (partialEscape s) = some s := by
   unfold unescape partialEscape
   induction s with
   | nil => rfl
-  | cons c r ih =>
-    rw [List.flatMap_cons, unescGo_pescChar, ih]; rfl
+  | cons c r ih => rw [List.flatMap_cons, unescGo_pescChar, ih]; rfl
 
 /-- exactly one escape on write and one unescape on read: every attribute text survives -/
 theorem attrRead_attrWrite (s : List Char) : attrRead (attrWrite s) = s := by
-  simp [attrRead, attrWrite, unescape_escape]
+  simp [attrRead, attrWrite, unescape_attrEscape]
 
-/-- the escaped text contains none of the characters that would end or break an attribute
-    value or a text node -/
-theorem escape_safe (s : List Char) : ∀ c ∈ escape s, c ≠ '<' ∧ c ≠ '"' ∧ c ≠ '\'' ∧ c ≠ '>' := by
-  intro c hc
-  simp only [escape, List.mem_flatMap] at hc
-  obtain ⟨d, _, hd⟩ := hc
-  unfold escChar at hd
+theorem escCharOld_safe (d : Char) : ∀ c ∈ escCharOld d, c ≠ '<' ∧ c ≠ '"' ∧ c ≠ '\'' ∧ c ≠ '>' := by
+  intro c hd
+  unfold escCharOld at hd
   split at hd
   · simp at hd; rcases hd with h | h | h | h <;> subst h <;> decide
   · split at hd
@@ -67,5 +104,42 @@ theorem escape_safe (s : List Char) : ∀ c ∈ escape s, c ≠ '<' ∧ c ≠ '"
           · simp at hd; subst hd
             rename_i h1 h2 h3 h4 h5
             exact ⟨h1, h5, h4, h2⟩
+
+theorem escCharOld_ws (d c : Char) (h : c ∈ escCharOld d) (hc : c = '\r' ∨ c = '\n' ∨ c = '\t') : c = d := by
+  unfold escCharOld at h
+  split at h
+  · exfalso; simp at h; rcases h with e | e | e | e <;> subst e <;> (rcases hc with x | x | x <;> exact absurd x (by decide))
+  · split at h
+    · exfalso; simp at h; rcases h with e | e | e | e <;> subst e <;> (rcases hc with x | x | x <;> exact absurd x (by decide))
+    · split at h
+      · exfalso; simp at h; rcases h with e | e | e | e | e <;> subst e <;> (rcases hc with x | x | x <;> exact absurd x (by decide))
+      · split at h
+        · exfalso; simp at h; rcases h with e | e | e | e | e | e <;> subst e <;> (rcases hc with x | x | x <;> exact absurd x (by decide))
+        · split at h
+          · exfalso; simp at h; rcases h with e | e | e | e | e | e <;> subst e <;> (rcases hc with x | x | x <;> exact absurd x (by decide))
+          · simpa using h
+
+/-- the escaped text contains none of the characters that would end or break an attribute
+    value or a text node, and no literal white space that a reader would normalise -/
+theorem attrEscape_safe (s : List Char) :
+    ∀ c ∈ attrEscape s, c ≠ '<' ∧ c ≠ '"' ∧ c ≠ '\'' ∧ c ≠ '>' ∧ c ≠ '\r' ∧ c ≠ '\n' ∧ c ≠ '\t' := by
+  intro c hc
+  simp only [attrEscape, List.mem_flatMap] at hc
+  obtain ⟨d, _, hd⟩ := hc
+  unfold attrEscChar at hd
+  split at hd
+  · simp at hd; rcases hd with h | h | h | h <;> subst h <;> decide
+  · split at hd
+    · simp at hd; rcases hd with h | h | h | h | h <;> subst h <;> decide
+    · rename_i ht hn
+      unfold escChar at hd
+      split at hd
+      · simp at hd; rcases hd with h | h | h | h | h <;> subst h <;> decide
+      · rename_i hr
+        have h4 := escCharOld_safe d c hd
+        refine ⟨h4.1, h4.2.1, h4.2.2.1, h4.2.2.2, ?_, ?_, ?_⟩
+        · intro e; exact hr ((escCharOld_ws d c hd (Or.inl e)).symm.trans e)
+        · intro e; exact hn ((escCharOld_ws d c hd (Or.inr (Or.inl e))).symm.trans e)
+        · intro e; exact ht ((escCharOld_ws d c hd (Or.inr (Or.inr e))).symm.trans e)
 
 end Umya.XmlEsc
